@@ -150,7 +150,7 @@ PROPS["C13"] = _e1({
 })
 
 PROPS["C14"] = _e1({
-    "rule": "[thorough: additionally all 531 441 tables with N = 4] (a) ALL conversion tables with N = 0, 1, 2, 3 entries over the 3 units of SynNoRef, entries drawn from 9 "
+    "rule": "[thorough: additionally all 531 441 tables with N = 4; rows range over the first 3 units of SynNoRef, conversions are asked for all its units; amounts include the roots of the affine maps] (a) ALL conversion tables with N = 0, 1, 2, 3 entries over 3 units of SynNoRef, entries drawn from 9 "
             "(from, to) pairs including from = to x 3 affine maps (1 + 27 + 729 + 19 683 = 20 440 tables; duplicates, "
             "missing pairs, shadowed entries and (u,u) rows all occur) x 9 (source, target) pairs x 4 amounts: result "
             "unchanged for equal units, bit-identical to amount*factor+offset of the FIRST matching entry, None otherwise; "
